@@ -132,9 +132,20 @@ def rank_clipped(ctx: Ctx):
                                 pairs.append({e.id for e in tg.elts})
                     args_names = {a.id for a in m.args if isinstance(a, ast.Name)}
                     shape_names = next((p for p in pairs if p <= args_names), set())
-                    has_rank = any(isinstance(a, ast.Subscript) and is_name(a.value, "rank") for a in m.args)
+                    # both sides of the unfolding: two names unpacked from its shape, or the shape itself starred
+                    starred_shape = any(isinstance(a, ast.Starred) and ((isinstance(a.value, ast.Attribute) and a.value.attr == "shape") or (isinstance(a.value, ast.Call) and call_name(a.value) == "shape")) for a in m.args)
+                    both_sides = (len(shape_names) == 2 and shape_names <= args_names) or starred_shape
+                    # the requested rank: rank[...] or the target of a loop over (something built from) rank
+                    loop_rank_names = set()
+                    for lp in own_scope_nodes(f.node):
+                        if isinstance(lp, ast.For) and any(isinstance(n, ast.Name) and n.id == "rank" for n in ast.walk(lp.iter)):
+                            loop_rank_names |= {n.id for n in ast.walk(lp.target) if isinstance(n, ast.Name)}
+                    has_rank = any((isinstance(a, ast.Subscript) and is_name(a.value, "rank")) or (isinstance(a, ast.Name) and a.id in loop_rank_names) for a in m.args)
+                    # the clipped number is the one the core is cut to: stored back into rank, or used in the core's reshape
                     stored = any(isinstance(s.targets[0], ast.Subscript) and is_name(s.targets[0].value, "rank") and is_name(s.value, ne.id) for s in assigns)
-                    ok = len(shape_names) == 2 and shape_names <= args_names and has_rank and stored
+                    used_for_core = any(isinstance(c2, ast.Call) and call_name(c2) == "reshape" and len(c2.args) >= 2 and any(isinstance(n, ast.Name) and n.id == ne.id for n in ast.walk(c2.args[1])) for c2 in own_scope_nodes(f.node))
+                    stored = stored or used_for_core
+                    ok = both_sides and has_rank and stored
                     verdict = f"min({', '.join(src(a) for a in m.args)}); stored back: {stored}"
                 else:
                     verdict = f"`{ne.id}` is not a single min(...)"
